@@ -99,13 +99,21 @@ def rand_grammar(rng):
             g["skip"] = len(lexemes)
             if " " not in letters:
                 letters = letters + " "
+    if rng.random() < 0.35:
+        # `T[lazy]`: the lexeme ends at the first byte at which it matches (ids of lazy lexemes; never the ignored one)
+        n_own = len(lexemes)
+        g["lazy"] = sorted(rng.sample(range(n_own), rng.choice([1, 1, 2]) if n_own > 1 else 1))
     return g, letters
+
+
+_LAZY = set()
 
 
 def lark_item(it):
     k = it["k"]
     if k == "tok":
-        return "T%d" % it["ids"][0]
+        # a lazy lexeme is written as a RULE with the `lazy` attribute (docs/syntax.md "Lazy lexemes")
+        return ("l%d" if it["ids"][0] in _LAZY else "T%d") % it["ids"][0]
     if k == "ref":
         return it["n"]
     if k == "opt":
@@ -123,13 +131,15 @@ def lark_item(it):
 
 def lark_text(g):
     lines = []
+    _LAZY.clear()
+    _LAZY.update(g.get("lazy", []))
     for r in g["rules"]:
         lines.append(r["lhs"] + ": " + " | ".join(" ".join(lark_item(x) for x in alt) or '""' for alt in r["alts"]))
     for i, lx in enumerate(g["lexemes"]):
         if i == g.get("skip", -1):
             lines.append("%%ignore /%s/" % rxgen.rx_text(lx))
         else:
-            lines.append("T%d: /%s/" % (i, rxgen.rx_text(lx)))
+            lines.append(("l%d[lazy]: /%s/" if i in _LAZY else "T%d: /%s/") % (i, rxgen.rx_text(lx)))
     return "\n".join(lines) + "\n"
 
 
